@@ -513,6 +513,14 @@ def print_item(r, it):
             lines = [f'pub {w} {{'] + ['    ' + l for l in lines] + ['}']
         elif w.startswith('fn '):
             lines = [f'{w}() {{'] + ['    ' + l for l in lines] + ['}']
+        elif w.startswith('fn-'):
+            # the item sits in a block that is reached only through an EXPRESSION of a function body
+            shape, name = w[3:].split(' ', 1)
+            body = ['    ' + l for l in lines]
+            open_, close = {'let': ('let _v = {', '0 };'), 'closure': ('let _c = || {', '};'), 'match': ('match 0 { _ => {', '} }'),
+                            'if': ('if true {', '} else { }'), 'loop': ('loop {', 'break; }'), 'unsafe': ('unsafe {', '}'), 'block': ('{', '}'),
+                            'arg': ('drop({', '0 });')}[shape]
+            lines = [f'fn {name}() {{', '    ' + open_] + ['    ' + l for l in body] + ['    ' + close, '}']
         else:
             lines = [f'{w} {{', '    fn method() {'] + ['        ' + l for l in lines] + ['    }', '}']
     return lines
